@@ -71,15 +71,17 @@ structure FloatEnv where
 
 /-- `strconv.ParseInt(s, 10, bits)` / `strconv.ParseUint(s, 10, bits)`: optional sign (signed
 only), at least one digit, no other character, and the value inside the type's range. -/
-def parseIntDefault (t : ITy) (s : BStr) : Except Err Int :=
-  let neg := t.signed && s.head? = some '-'
-  let body := if t.signed && (s.head? = some '-' || s.head? = some '+') then s.drop 1 else s
+def parseIntBody (t : ITy) (neg : Bool) (body : BStr) : Except Err Int :=
   if body.isEmpty then .error .decode
   else match parseDigits body with
     | none => .error .decode
     | some m =>
-      let v : Int := if neg then -(m : Int) else (m : Int)
-      if t.lo ≤ v ∧ v < t.hi then .ok v else .error .decode
+      if t.lo ≤ (if neg then -(m : Int) else (m : Int)) ∧ (if neg then -(m : Int) else (m : Int)) < t.hi
+      then .ok (if neg then -(m : Int) else (m : Int)) else .error .decode
+
+def parseIntDefault (t : ITy) (s : BStr) : Except Err Int :=
+  parseIntBody t (t.signed && s.head? = some '-')
+    (if t.signed && (s.head? = some '-' || s.head? = some '+') then s.drop 1 else s)
 
 def bstr (x : String) : BStr := x.toList
 
